@@ -1,11 +1,571 @@
-//! C10 (not built yet)
-use crate::report::{Disagreement, Run};
-use serde_json::Value;
+//! C10 Display language and locale never change what formulas compute.
+//!
+//! Part A (corpus x all ordered pairs): a workbook (data, defined names incl. a LAMBDA, a conditional format) is
+//! built in language l1 / locale loc1 and the corpus formula is typed there as the text the display printer gives
+//! for (l1, loc1). Then for EVERY target (l2, loc2): set_language(l2) -> nothing stored and no value changes;
+//! the formula shown in l2 re-entered stores the same formula; set_locale(loc2) -> nothing stored changes, values
+//! change only for formulas using TEXT/VALUE/NUMBERVALUE/DOLLAR/FIXED/DATEVALUE/TIMEVALUE; re-entry again; and back.
+//! Part B (switches inside histories): every word of <=2 language-neutral operations from the `basic` seed, with a
+//! language or locale switch inserted at every position, must leave the same stored formulas, names, conditional
+//! formats and values as the same word without the switch.
 
-pub fn run(run: &mut Run) {
-    run.machinery_errors.push("C10: check not built yet".into());
+use crate::fx;
+use crate::ops::Op;
+use crate::props::c09;
+use crate::report::{Disagreement, Run};
+use crate::seeds;
+use ironcalc_base::cf_types::CfRuleInput;
+use ironcalc_base::expressions::parser::stringify::{to_localized_string, to_rc_format};
+use ironcalc_base::expressions::parser::Node;
+use ironcalc_base::{Function, UserModel};
+use serde_json::{json, Value};
+
+const FROW: i32 = 3;
+const FCOL: i32 = 3;
+
+fn hand_corpus() -> Vec<&'static str> {
+    vec![
+        "TRUE", "FALSE", "TRUE()", "NOT(TRUE)", "IF(TRUE,1,2)", "AND(TRUE,FALSE)",
+        "#REF!", "#NAME?", "#VALUE!", "#DIV/0!", "#N/A", "#NUM!", "#ERROR!", "#N/IMPL!", "#SPILL!", "#CALC!", "#CIRC!", "#NULL!",
+        "IFERROR(#N/A,1.5)", "ISNA(#N/A)",
+        "1.5+2.25", "1E-3*2", "0.1+0.2", "1.5", "A1*1.5", "SUM(1.5,2.5,A1)", "SUM(1,2,3)", "MAX(A1,B1,2.5)",
+        "{1,2;3,4}", "{1.5,2.5}", "{TRUE,\"a\"}", "SUM({1.5,2.5;3.5,4.5})", "INDEX({1,2;3,4},2,1)",
+        "IF(A1>1.5,\"a;b\",\"c,d\")", "\"1,5\"", "\"a;b\"&\"c,d\"", "LEN(\"1.5\")", "CONCAT(1.5,\"x\")", "1.5&\"\"",
+        "nm", "nm*2", "SUM(rng)", "lam(2)", "A1", "$B$2", "Sheet2!A1", "SUM(A1:B2)", "SUM(Sheet2!A1,A1)", "A1:B2",
+        "TEXT(1234.5,\"#,##0.00\")", "TEXT(0.5,\"0%\")", "VALUE(\"1.5\")", "VALUE(\"1,5\")", "NUMBERVALUE(\"1,5\",\",\",\".\")",
+        "DOLLAR(1234.5)", "FIXED(1234.567,2)", "DATEVALUE(\"2020-01-02\")", "TIMEVALUE(\"12:00\")",
+        "ROUND(2.567,1)", "LEFT(\"abc\",2)", "DATE(2020,1,2)", "YEAR(DATE(2020,1,2))", "NOW()", "TODAY()",
+        "LET(x,1.5,x*2)", "LAMBDA(x,x+0.5)(1)", "SUM(,1)", "@A1", "SUMIF(A1:B2,\">2.5\")", "COUNTIF(A1:B2,\"<>2\")",
+        "VLOOKUP(2,A1:B2,2,FALSE)", "MID(\"hello\",2,3)", "UPPER(\"é\")", "PI()", "SQRT(2)", "1/3", "2^0.5", "-A1%",
+        "SUBSTITUTE(\"a,b\",\",\",\";\")", "TEXTJOIN(\";\",TRUE,A1,B1)", "SEARCH(\".\",\"1.5\")", "SWITCH(A1,2,\"two\",\"other\")",
+        "IFS(A1>1,\"x\",TRUE,\"y\")", "XOR(TRUE,FALSE)", "CHOOSE(2,1.5,2.5)", "AVERAGE(A1:B2)", "SUMPRODUCT(A1:A2,B1:B2)",
+    ]
 }
 
-pub fn replay(_case: &Value) -> Vec<Disagreement> {
+const LOCALE_DEPENDENT: [&str; 7] = ["Text", "Value", "Numbervalue", "Dollar", "Fixed", "Datevalue", "Timevalue"];
+const EXCLUDED_FUNCTIONS: [&str; 3] = ["Rand", "Randbetween", "Randarray"];
+
+fn function_names(n: &Node, out: &mut Vec<String>) {
+    if let Node::FunctionKind { kind, .. } = n {
+        out.push(format!("{:?}", kind));
+    }
+    for (_, c) in fx::children(n) {
+        function_names(c, out);
+    }
+}
+
+pub fn corpus(thorough: bool) -> Vec<String> {
+    let mut v: Vec<String> = hand_corpus().iter().map(|s| s.to_string()).collect();
+    if thorough {
+        // every function once: FN(1) (FN() where one argument is a parse error is filtered by the parser later)
+        let en = fx::lang("en");
+        for f in Function::into_iter() {
+            let name = format!("{:?}", f);
+            if EXCLUDED_FUNCTIONS.contains(&name.as_str()) || matches!(f, Function::Lambda | Function::Let) {
+                continue;
+            }
+            v.push(format!("{}(1)", f.to_localized_name(en)));
+        }
+    } else {
+        v.truncate(64);
+    }
+    v
+}
+
+fn cf_input(formula: &str) -> CfRuleInput {
+    let mut dxf = ironcalc_base::types::Dxf::default();
+    dxf.font = Some(ironcalc_base::types::DxfFont {
+        b: Some(true),
+        ..Default::default()
+    });
+    CfRuleInput::Formula {
+        formula: formula.to_string(),
+        format: dxf,
+        stop_if_true: false,
+    }
+}
+
+fn localized(env: &mut c09::Env, english: &str, lang: &str, locale: &str) -> Option<(Node, String)> {
+    let t = env.parse_source(english);
+    if fx::has_parse_error(&t) {
+        return None;
+    }
+    let s = to_localized_string(&t, &fx::ctx("Sheet1", FROW, FCOL), fx::loc(locale), fx::lang(lang));
+    Some((t, s))
+}
+
+/// Builds the workbook in (l1, loc1) and types the formula there. None = the typed text is not taken as the same
+/// formula (C09's subject), so the case is outside this property's quantifier.
+fn build(env: &mut c09::Env, english: &str, l1: &'static str, loc1: &'static str) -> Option<(UserModel<'static>, Node)> {
+    let (t, typed) = localized(env, english, l1, loc1)?;
+    let mut um = UserModel::new_empty("b", loc1, "UTC", l1).ok()?;
+    let _ = um.rename_sheet(0, "Sheet1");
+    um.new_sheet().ok()?;
+    let _ = um.rename_sheet(1, "Sheet2");
+    if um.get_model().workbook.get_worksheet_names() != vec!["Sheet1".to_string(), "Sheet2".to_string()] {
+        return None;
+    }
+    for (s, r, c, v) in [(0, 1, 1, "2"), (0, 2, 1, "5"), (0, 1, 2, "7"), (0, 2, 2, "11"), (1, 1, 1, "13")] {
+        um.set_user_input(s, r, c, v).ok()?;
+    }
+    um.new_defined_name("nm", None, "Sheet1!$A$1").ok()?;
+    um.new_defined_name("rng", None, "Sheet1!$A$1:$B$2").ok()?;
+    let (_, lam) = localized(env, "LAMBDA(x,x*1.5)", l1, loc1)?;
+    um.new_defined_name("lam", None, &format!("={}", lam)).ok()?;
+    let (_, cf) = localized(env, "A1>1.5", l1, loc1)?;
+    um.add_conditional_formatting(0, "A1:B2", cf_input(&format!("={}", cf))).ok()?;
+    um.set_user_input(0, FROW, FCOL, &format!("={}", typed)).ok()?;
+    um.evaluate();
+    let stored = fx::stored_rc(um.get_model(), 0, FROW, FCOL)?;
+    // the parser the model used knows the same sheets and names as c09's environment
+    if stored != to_rc_format(&t) {
+        return None;
+    }
+    Some((um, t))
+}
+
+fn diff_text(a: &fx::Snap, b: &fx::Snap, values: bool) -> Option<(String, String)> {
+    let ds = fx::map_diff(&a.stored, &b.stored, 4);
+    if !ds.is_empty() {
+        let cls: std::collections::BTreeSet<&str> = ds.iter().map(|d| fx::key_class(&d.0)).collect();
+        return Some((
+            format!("stored({})", cls.into_iter().collect::<Vec<_>>().join(",")),
+            ds.iter().map(|(k, x, y)| format!("{}: `{}` -> `{}`", k, x, y)).collect::<Vec<_>>().join("\n"),
+        ));
+    }
+    if values {
+        let dv = fx::map_diff(&a.values, &b.values, 4);
+        if !dv.is_empty() {
+            return Some((
+                "value".into(),
+                dv.iter().map(|(k, x, y)| format!("{}: {} -> {}", k, x, y)).collect::<Vec<_>>().join("\n"),
+            ));
+        }
+    }
+    None
+}
+
+fn root_class(t: &Node) -> String {
+    match t {
+        Node::FunctionKind { kind, .. } => format!("Function({:?})", kind),
+        other => fx::kind(other),
+    }
+}
+
+pub struct AOut {
+    pub ds: Vec<Disagreement>,
+    pub targets: u64,
+    pub built: bool,
+    pub calls: u64,
+}
+
+/// One (formula, l1, loc1): all 30 targets in sequence on one workbook (rebuilt after a violation).
+pub fn check_a(env: &mut c09::Env, english: &str, l1: &'static str, loc1: &'static str, only: Option<(&str, &str)>) -> AOut {
+    let mut out = AOut { ds: vec![], targets: 0, built: false, calls: 0 };
+    let (mut um, t) = match build(env, english, l1, loc1) {
+        Some(x) => x,
+        None => return out,
+    };
+    out.built = true;
+    let mut fns = vec![];
+    function_names(&t, &mut fns);
+    let locale_dep = fns.iter().any(|f| LOCALE_DEPENDENT.contains(&f.as_str()));
+    let s0 = fx::snap(um.get_model());
+    for l2 in fx::LANGS {
+        for loc2 in fx::LOCALES {
+            if let Some((a, b)) = only {
+                if a != l2 || b != loc2 {
+                    continue;
+                }
+            }
+            out.targets += 1;
+            let case = json!({"part":"A","formula": english, "from":[l1, loc1], "to":[l2, loc2]});
+            let mut bad: Option<(String, String)> = None;
+            let r = crate::env::guarded(|| {
+                // 1. language
+                if let Err(e) = um.set_language(l2) {
+                    return Some((format!("set_language error"), e));
+                }
+                let s1 = fx::snap(um.get_model());
+                if let Some((cls, why)) = diff_text(&s0, &s1, true) {
+                    return Some((format!("set_language changes {} lang={}", cls, l2), why));
+                }
+                // 2. re-enter what is shown
+                let shown = um.get_model().get_cell_formula(0, FROW, FCOL).ok().flatten().unwrap_or_default();
+                let reenter = |um: &mut UserModel, shown: &str, base: &fx::Snap, stage: &str, l: &'static str, c: &'static str, env: &mut c09::Env| -> Option<(String, String)> {
+                    let cause = |env: &mut c09::Env| {
+                        c09::classify_public(&t, l, c, env).unwrap_or_else(|| "display-roundtrip-ok".into())
+                    };
+                    if let Err(e) = um.set_user_input(0, FROW, FCOL, shown) {
+                        return Some((format!("{} rejected cause={}", stage, cause(env)), format!("shown `{}`: {}", shown, e)));
+                    }
+                    um.evaluate();
+                    let s = fx::snap(um.get_model());
+                    if let Some((cls, why)) = diff_text(base, &s, true) {
+                        return Some((format!("{} changes {} cause={}", stage, cls, cause(env)), format!("shown `{}` re-entered:\n{}", shown, why)));
+                    }
+                    None
+                };
+                if let Some(x) = reenter(&mut um, &shown, &s0, "reenter-after-language", l2, loc1, env) {
+                    return Some(x);
+                }
+                // 3. locale
+                if let Err(e) = um.set_locale(loc2) {
+                    return Some(("set_locale error".into(), e));
+                }
+                let s2 = fx::snap(um.get_model());
+                if let Some((cls, why)) = diff_text(&s0, &s2, !locale_dep) {
+                    return Some((format!("set_locale changes {} root={}", cls, root_class(&t)), why));
+                }
+                // 4. re-enter in the new locale
+                let shown = um.get_model().get_cell_formula(0, FROW, FCOL).ok().flatten().unwrap_or_default();
+                if let Some(x) = reenter(&mut um, &shown, &s2, "reenter-after-locale", l2, loc2, env) {
+                    return Some(x);
+                }
+                // 5. and back
+                let _ = um.set_language(l1);
+                let _ = um.set_locale(loc1);
+                let s3 = fx::snap(um.get_model());
+                if let Some((cls, why)) = diff_text(&s0, &s3, true) {
+                    return Some((format!("switch-back changes {} root={}", cls, root_class(&t)), why));
+                }
+                None
+            });
+            out.calls += 8;
+            match r {
+                Ok(x) => bad = x,
+                Err(p) => {
+                    bad = Some((format!("panic at={}", p.rsplit(" @ ").next().unwrap_or("")), p));
+                }
+            }
+            if let Some((sig, detail)) = bad {
+                out.ds.push(Disagreement {
+                    sig: format!("A {}", sig),
+                    case,
+                    detail: format!("formula `{}` typed in {}/{} then shown in {}/{}\n{}", english, l1, loc1, l2, loc2, detail),
+                });
+                // the workbook may be damaged: rebuild
+                match build(env, english, l1, loc1) {
+                    Some((m, _)) => um = m,
+                    None => return out,
+                }
+            }
+        }
+    }
+    out
+}
+
+// ------------------------------------------------------------------ part B
+
+fn neutral_input(text: &str) -> bool {
+    matches!(
+        text,
+        "5" | "abc" | "'34" | "" | "=A1+1" | "=Sheet2!A1" | "x" | "=Sheet1!A2*2" | "7" | "=A2#" | "=nm" | "=E6#*2" | "=1/0"
+    )
+}
+
+pub fn alphabet_b() -> Vec<Op> {
+    let mut v = vec![];
+    for op in seeds::alphabet_full() {
+        let keep = match &op {
+            Op::Input(_, _, _, t) => neutral_input(t),
+            Op::ArrayFormula(_, _, _, _, _, f) => f == "=A1:B1*2",
+            Op::AddCf(_, _, f) | Op::UpdateCf(_, _, _, f) => !f.contains("TRUE"),
+            Op::PasteCsv(..) => true,
+            other => matches!(
+                other.kind(),
+                "InsertRows" | "InsertCols" | "DeleteRows" | "DeleteCols" | "MoveRows" | "MoveCols" | "CopyPaste"
+                    | "CutPaste" | "AutoFillRows" | "AutoFillCols" | "RenameSheet" | "DuplicateSheet" | "DeleteSheet"
+                    | "MoveSheet" | "NewName" | "UpdateName" | "DeleteName" | "DeleteCf" | "ClearContents" | "ClearAll"
+            ),
+        };
+        if keep {
+            v.push(op);
+        }
+    }
+    v
+}
+
+fn switch_op(kind: &str, id: &str) -> Op {
+    if kind == "lang" {
+        Op::SetLanguage(id.to_string())
+    } else {
+        Op::SetLocale(id.to_string())
+    }
+}
+
+/// Runs `ops` from the basic seed; returns the snapshot after every neutral op (None after the first Err).
+fn run_word(ops: &[Op], switch: Option<(usize, &Op)>) -> Vec<Result<fx::Snap, String>> {
+    let mut um = seeds::load("basic");
+    let mut out = vec![];
+    for (i, op) in ops.iter().enumerate() {
+        if let Some((pos, sw)) = switch {
+            if pos == i {
+                let _ = sw.apply(&mut um);
+            }
+        }
+        match op.apply(&mut um) {
+            Ok(()) => out.push(Ok(fx::snap(um.get_model()))),
+            Err(e) => {
+                out.push(Err(e));
+                return out;
+            }
+        }
+    }
+    if let Some((pos, sw)) = switch {
+        if pos == ops.len() {
+            let _ = sw.apply(&mut um);
+            if let Some(last) = out.last_mut() {
+                *last = Ok(fx::snap(um.get_model()));
+            }
+        }
+    }
+    out
+}
+
+/// Names the kind of damage between the run without the switch (`a`) and the run with it (`b`).
+fn damage(a: &fx::Snap, b: &fx::Snap) -> String {
+    let mut tags: std::collections::BTreeSet<String> = Default::default();
+    let sheets: Vec<String> = b
+        .stored
+        .iter()
+        .filter(|(k, _)| k.ends_with(".name"))
+        .map(|(_, v)| v.clone())
+        .collect();
+    let sheet_refs: Vec<&str> = sheets.iter().map(|s| s.as_str()).collect();
+    let mut rc = fx::mk_parser(&sheet_refs, vec![], fx::loc("en"), fx::lang("en"));
+    fx::set_rc(&mut rc, true);
+    let first = sheets.first().cloned().unwrap_or_else(|| "Sheet1".into());
+    fn has_named_fn(n: &Node) -> bool {
+        matches!(n, Node::NamedFunctionKind { .. }) || fx::children(n).iter().any(|(_, c)| has_named_fn(c))
+    }
+    for (k, x, y) in fx::map_diff(&a.stored, &b.stored, 1000) {
+        match fx::key_class(&k) {
+            "formula" => {
+                if x == "<absent>" || y == "<absent>" {
+                    tags.insert("formula-cell-set".into());
+                } else if x.to_lowercase() == y.to_lowercase() {
+                    tags.insert("function-name-case".into());
+                } else {
+                    let ny = rc.parse(&y, &fx::ctx(&first, 1, 1));
+                    let nx = rc.parse(&x, &fx::ctx(&first, 1, 1));
+                    if fx::has_parse_error(&ny) {
+                        tags.insert("stored-text-unparseable".into());
+                    } else if has_named_fn(&ny) && !has_named_fn(&nx) {
+                        tags.insert("stored-unknown-function".into());
+                    } else if x.contains('{') && y.contains('{') {
+                        tags.insert("array-literal".into());
+                    } else {
+                        tags.insert("formula-other".into());
+                    }
+                }
+            }
+            other => {
+                tags.insert(other.to_string());
+            }
+        }
+    }
+    if tags.is_empty() {
+        for (_, x, y) in fx::map_diff(&a.values, &b.values, 1000) {
+            let tx = x.split(':').next().unwrap_or("").to_string();
+            let ty = y.split(':').next().unwrap_or("").to_string();
+            if tx == "LogicalValue" && ty == "Text" {
+                tags.insert("value:boolean-became-text".into());
+            } else if tx == ty && tx == "ErrorValue" {
+                tags.insert("value:error-kind".into());
+            } else {
+                tags.insert(format!("value:{}->{}", tx, ty));
+            }
+        }
+    }
+    tags.into_iter().collect::<Vec<_>>().join("+")
+}
+
+pub fn check_b(ops: &[Op], skind: &str, sid: &str, pos: usize, base: &[Result<fx::Snap, String>]) -> Vec<Disagreement> {
+    let sw = switch_op(skind, sid);
+    let case = json!({"part":"B","ops": ops, "switch":[skind, sid], "pos": pos});
+    let r = crate::env::guarded(|| run_word(ops, Some((pos, &sw))));
+    let got = match r {
+        Ok(g) => g,
+        Err(p) => {
+            return vec![Disagreement {
+                sig: format!("B panic switch={} at={}", skind, p.rsplit(" @ ").next().unwrap_or("")),
+                case,
+                detail: p,
+            }]
+        }
+    };
+    for (i, (b, g)) in base.iter().zip(got.iter()).enumerate() {
+        let opk = ops[i].kind();
+        match (b, g) {
+            (Ok(sb), Ok(sg)) => {
+                if let Some((_, why)) = diff_text(sb, sg, true) {
+                    // one disagreement per kind of damage, so that co-occurring damages do not form new signatures
+                    return damage(sb, sg)
+                        .split('+')
+                        .map(|tag| Disagreement {
+                            sig: format!("B switch={} op={} damage={}", skind, opk, tag),
+                            case: case.clone(),
+                            detail: format!("{} {} before operation {}: after operation {} ({:?}) the workbook differs from the run without the switch\n{}", skind, sid, pos, i, ops[i], why),
+                        })
+                        .collect();
+                }
+            }
+            (Err(_), Err(_)) => return vec![],
+            (Ok(_), Err(e)) => {
+                return vec![Disagreement {
+                    sig: format!("B switch={} op={} fails-only-with-switch", skind, opk),
+                    case,
+                    detail: format!("{:?} succeeds without the switch and fails with {} {}: {}", ops[i], skind, sid, e),
+                }]
+            }
+            (Err(e), Ok(_)) => {
+                return vec![Disagreement {
+                    sig: format!("B switch={} op={} succeeds-only-with-switch", skind, opk),
+                    case,
+                    detail: format!("{:?} fails without the switch ({}) and succeeds with {} {}", ops[i], e, skind, sid),
+                }]
+            }
+        }
+    }
     vec![]
+}
+
+// ------------------------------------------------------------------ driver
+
+pub fn run(run: &mut Run) {
+    let thorough = run.tier.thorough();
+    let forms = corpus(thorough);
+    // Part A units: (formula, l1, loc1)
+    let mut units: Vec<(&String, &'static str, &'static str)> = vec![];
+    for f in &forms {
+        for l in fx::LANGS {
+            for c in fx::LOCALES {
+                units.push((f, l, c));
+            }
+        }
+    }
+    let chunk = 30;
+    let res = crate::env::par_units(units.len().div_ceil(chunk), |u| {
+        let mut env = c09::Env::new();
+        let mut ds = vec![];
+        let (mut targets, mut built, mut calls) = (0u64, 0u64, 0u64);
+        for (f, l, c) in units.iter().skip(u * chunk).take(chunk) {
+            let o = check_a(&mut env, f, l, c, None);
+            targets += o.targets;
+            calls += o.calls;
+            if o.built {
+                built += 1;
+            }
+            ds.extend(o.ds);
+        }
+        (ds, targets, built, calls)
+    });
+    let (mut targets, mut built) = (0u64, 0u64);
+    for r in res {
+        match r {
+            Ok((ds, t, b, c)) => {
+                run.add_all(ds);
+                targets += t;
+                built += b;
+                run.transitions += c;
+            }
+            Err(e) => run.machinery_errors.push(format!("part A unit panicked: {}", e)),
+        }
+    }
+    run.evaluations += targets;
+    run.traces += targets;
+    run.nontrivial += targets;
+
+    // Part B
+    let alpha = alphabet_b();
+    let switches: Vec<(&str, &str)> = if thorough {
+        vec![("lang", "es"), ("lang", "fr"), ("lang", "de"), ("lang", "it"), ("locale", "en-GB"), ("locale", "es"), ("locale", "fr"), ("locale", "de"), ("locale", "it")]
+    } else {
+        vec![("lang", "de"), ("lang", "es"), ("locale", "de"), ("locale", "en-GB")]
+    };
+    let n = alpha.len();
+    let res = crate::env::par_units(n, |u| {
+        let mut ds = vec![];
+        let (mut words, mut runs) = (0u64, 0u64);
+        let mut outcomes = std::collections::BTreeSet::new();
+        // words: [a_u] and [a_u, b] for every b
+        let mut ws: Vec<Vec<Op>> = vec![vec![alpha[u].clone()]];
+        for b in &alpha {
+            ws.push(vec![alpha[u].clone(), b.clone()]);
+        }
+        for w in ws {
+            let base = match crate::env::guarded(|| run_word(&w, None)) {
+                Ok(b) => b,
+                Err(_) => continue, // a panic without any switch is not this property's subject
+            };
+            if base.iter().any(|r| r.is_err()) {
+                continue;
+            }
+            words += 1;
+            if let Some(Ok(s)) = base.last() {
+                outcomes.insert(crate::env::digest(&format!("{:?}", s.stored)));
+            }
+            for (k, id) in &switches {
+                for pos in 0..=w.len() {
+                    runs += 1;
+                    ds.extend(check_b(&w, k, id, pos, &base));
+                }
+            }
+        }
+        (ds, words, runs, outcomes)
+    });
+    let (mut words, mut runs) = (0u64, 0u64);
+    let mut outcomes = std::collections::BTreeSet::new();
+    for r in res {
+        match r {
+            Ok((ds, w, rr, o)) => {
+                run.add_all(ds);
+                words += w;
+                runs += rr;
+                outcomes.extend(o);
+            }
+            Err(e) => run.machinery_errors.push(format!("part B unit panicked: {}", e)),
+        }
+    }
+    run.evaluations += runs;
+    run.traces += runs;
+    run.transitions += runs * 3;
+    run.nontrivial += runs;
+    run.states = built + words;
+    run.distinct_outcomes = outcomes.len() as u64 + built;
+    run.rule = "every (formula, typed-in pair, target pair) and every (history, switch, position) is a real switch on a workbook with formulas, names and a conditional format".into();
+    run.sample(json!({"part":"A","formula": forms[0], "from":["de","de"], "to":["fr","en-GB"]}));
+    run.sample(json!({"part":"A","formula": forms[forms.len() / 2], "from":["en","en"], "to":["it","es"]}));
+    run.sample(json!({"part":"B","ops":[alpha[0], alpha[alpha.len() / 2]], "switch":["locale","de"], "pos":1}));
+    run.bound = json!({
+        "part_A": {"formulas": forms.len(), "typed_in_pairs": 30, "target_pairs": 30, "workbooks_built": built, "workbooks_where_typed_text_is_not_the_formula (C09 domain, skipped)": units.len() as u64 - built, "targets_checked": targets},
+        "part_B": {"seed": "basic", "alphabet": n, "depth": 2, "effective_words": words, "switches": switches, "positions": "before each operation and after the last", "runs": runs},
+    });
+    run.exhaustive = true;
+    run.assume("values are allowed to change with the locale only for formulas containing TEXT, VALUE, NUMBERVALUE, DOLLAR, FIXED, DATEVALUE or TIMEVALUE; RAND, RANDBETWEEN and RANDARRAY are not in the corpus");
+    run.assume("part B operations take no language- or locale-dependent text (inputs are restricted to neutral literals and formulas without function names, booleans or decimals)");
+    run.assume("a formula whose typed localized text is not stored as the same formula is C09's subject and is skipped here (counted)");
+}
+
+pub fn replay(case: &Value) -> Vec<Disagreement> {
+    let st = |v: &Value| -> &'static str {
+        let s = v.as_str().unwrap_or("en");
+        fx::LANGS.iter().chain(fx::LOCALES.iter()).find(|x| **x == s).copied().unwrap_or("en")
+    };
+    if case["part"] == "A" {
+        let mut env = c09::Env::new();
+        let (l1, c1) = (st(&case["from"][0]), st(&case["from"][1]));
+        let (l2, c2) = (st(&case["to"][0]), st(&case["to"][1]));
+        return check_a(&mut env, case["formula"].as_str().unwrap_or(""), l1, c1, Some((l2, c2))).ds;
+    }
+    let ops: Vec<Op> = serde_json::from_value(case["ops"].clone()).unwrap_or_default();
+    let base = run_word(&ops, None);
+    check_b(
+        &ops,
+        case["switch"][0].as_str().unwrap_or("lang"),
+        case["switch"][1].as_str().unwrap_or("de"),
+        case["pos"].as_u64().unwrap_or(0) as usize,
+        &base,
+    )
 }
